@@ -376,7 +376,21 @@ def run(ctx):
                          lambda efs: any(pol is True and 'end()' in k and ('operator==' in k or '==' in k) for k, pol, atom in efs),
                          'Rule::GetBinding answers "no such binding" only when the key is not in bindings_',
                          'Rule::GetBinding:null-for-present-key')
-    ctx.floor('C12.O2', 18)
+    # the cycle detector's stack of variables being expanded: whatever a lookup pushes it pops before it returns, on
+    # every path - a name left behind makes the next, unrelated reference to that variable "a cycle in rule variables"
+    elv_ = prog.fn('EdgeEnv::LookupVariable')
+    npush = 0
+    for e in elv_.events('call'):
+        if lastname(e.get('name')) in ('push_back', 'emplace_back') and mentions_field(e.get('recv'), 'EdgeEnv::lookups_'):
+            npush += 1
+            r = elv_.find_path(e, lambda x: x['k'] in ('ret', 'exit'),
+                               is_blocker=lambda x: x['k'] == 'call' and lastname(x.get('name')) == 'pop_back' and mentions_field(x.get('recv'), 'EdgeEnv::lookups_'),
+                               init_facts=[(k, pol) for k, (pol, a) in elv_.facts_at(e).items()])
+            ctx.check('C12.O2', r is None, elv_.name, 'lookups_:push-without-pop', elv_.where(e),
+                      'every variable pushed on the expansion stack is popped before LookupVariable returns',
+                      witness=None if r is None else {'blocks': r[0]})
+    ctx.check('C12.O2', npush >= 1, elv_.name, 'lookups_:no-push', elv_.loc, 'the expansion stack is maintained (%d pushes)' % npush)
+    ctx.floor('C12.O2', 20)
 
     # ---- CF: expansion time by type --------------------------------------------------------------
     R('C12.CF', 'CF', 'file- and build-level bindings can only store an evaluated string (immediate '
